@@ -690,8 +690,22 @@ func (in *Inst) escapes(x *ssa.Alloc) bool {
 					}
 				}
 			}
-			// and the closure itself must be deferred or called directly - or spawned with `go`, provided it only
-			// reads the variable (a concurrent reader cannot change what this function sees)
+			// a closure that only reads the variable may be used in any way (stored, passed on, spawned): whoever
+			// runs it cannot change what this function sees
+			readsOnly := true
+			for i, b := range u.Bindings {
+				if b == ssa.Value(x) {
+					for _, rr := range *fnv.FreeVars[i].Referrers() {
+						if _, isStore := rr.(*ssa.Store); isStore {
+							readsOnly = false
+						}
+					}
+				}
+			}
+			if readsOnly {
+				continue
+			}
+			// otherwise the closure itself must be deferred or called directly
 			for _, cr := range *u.Referrers() {
 				switch c := cr.(type) {
 				case *ssa.Defer:
